@@ -53,6 +53,9 @@ class StatefulMixin:
             self.user_state = nv                # US_ASSIGN
         if ending == 'raise':
             raise ValueError('end')
+        if ending == 'return_lock':
+            import threading
+            return threading.Lock()             # a result that cannot be sent: the outcome becomes an error, the state can still be reported
         if ending == 'spin':
             # never ends on its own: only a termination request gets the worker out of here
             import time
